@@ -93,13 +93,13 @@ impl<'a> Iterator for Enumerator<'a> {
 					else if bytes[i as usize] == b'\0' {
 						if i - start >= self.config.min_length_nul as usize {
 							self.offset = (i + 1) as u32;
-							return Some(Found::nul(&bytes[start..i], self.base + start as u32));
+							return Some(Found::nul(&bytes[start..i], self.base.wrapping_add(start as u32)));
 						}
 					}
 					else if !self.config.strict_nul {
 						if i - start >= self.config.min_length as usize {
 							self.offset = (i + 1) as u32;
-							return Some(Found::non_nul(&bytes[start..i], self.base + start as u32));
+							return Some(Found::non_nul(&bytes[start..i], self.base.wrapping_add(start as u32)));
 						}
 					}
 					i += 1;
@@ -108,7 +108,7 @@ impl<'a> Iterator for Enumerator<'a> {
 				if start != i {
 					if !self.config.strict_nul && i - start >= self.config.min_length as usize {
 						self.offset = i as u32;
-						return Some(Found::non_nul(&bytes[start..i], self.base + start as u32));
+						return Some(Found::non_nul(&bytes[start..i], self.base.wrapping_add(start as u32)));
 					}
 				}
 			},
